@@ -30,9 +30,9 @@ def skeleton : List (String × List String) := [
   ("Runtime.leaveAbrupt", ["set r.jobQueue = nil"]),
   ("asyncRunner.step", ["if done || ex != nil {", "if ex == nil {", "call ar.promiseCap.resolve", "} else {", "call ar.promiseCap.reject", "}", "return", "}", "call r.getPromise", "call r.promiseResolve", "call promise.self.(*Promise).addReactions"]),
   ("asyncRunner.onFulfilled", ["defer {", "func {", "}", "}", "call call.Argument", "call ar.gen.next", "call ar.step", "return"]),
-  ("asyncRunner.onRejected", ["defer {", "func {", "}", "}", "call call.Argument", "call ar.gen.nextThrow", "call ar.step", "return"])
+  ("asyncRunner.onRejected", ["defer {", "func {", "}", "}", "call call.Argument", "call ar.gen.nextThrow", "call ar.step", "return"]),
+  ("asyncRunner.start", ["set ar.gen.vm = r.vm", "call r.getPromise", "call r.newPromiseCapability", "set ar.promiseCap = r.newPromiseCapability(r.getPromise())", "call ar.gen.enter", "set entered := false", "defer {", "call ar.gen.dropMarkerOnPanic", "}", "call ar.vmCall", "call ar.gen.step", "call ar.step", "set entered = true", "if ex != nil {", "}", "call r.vm.popTryFrame", "call r.vm.popCtx"])
 ]
-
 
 end GojaModel.C10.Expected
 
